@@ -9,6 +9,7 @@ From EP Require Roundtrip.Ipv6 Roundtrip.Ipv6Proofs.
 From EP Require Roundtrip.Eth Roundtrip.EthProofs Roundtrip.Vlan Roundtrip.VlanProofs.
 From EP Require Roundtrip.Sll Roundtrip.SllProofs Roundtrip.Arp Roundtrip.ArpProofs.
 From EP Require Roundtrip.Exts4 Roundtrip.Exts4Proofs.
+From EP Require ExtChain.Spec ExtChain.Model ExtChain.Proofs Roundtrip.Exts6Proofs.
 Local Open Scope N_scope.
 
 (* ------------------------------------------------------------------ MacsecHeader *)
@@ -471,3 +472,54 @@ Example C08_Exts4_ex : wf_x4 ex_some = true /\ x4_linked 51 ex_some = true
   /\ x4_from_slice 17 [1; 2; 3] = Ok ({| x4_auth := None |}, 17, [1; 2; 3]).
 Proof. repeat split; vm_compute; reflexivity. Qed.
 End EXTS4.
+
+(* ------------------------------------------------------------------ Ipv6Extensions *)
+(* Stated on the model of property C12 (ExtChain/Model.v: Exts6, write, from_slice, next_header,
+   header_len), which is tied to the crate by C12's own correspondence run; C12 proves the chain
+   bookkeeping (C12_write_iff_walk, C12_write_len, C12_decode_write for an empty remainder). *)
+Module EXTS6.
+Import ExtChain.Spec ExtChain.Model ExtChain.Proofs Roundtrip.Exts6Proofs.
+
+(* the only serialiser is write(first_header); decode(write e ++ rest) = (e, final number, rest) for
+   every valid struct whose chain is consistent (write succeeds, equivalently next_header succeeds)
+   and ends on a non-extension number; len = header_len.
+   _partial: Ipv6Extensions::read is not modelled (ExtChain has no model of it). Full statement:
+   ... /\ read (bs ++ rest) first = Ok (e, n, rest). *)
+Theorem C08_Exts6_dec_enc_partial : forall e first bs n rest, exts6_valid e = true ->
+  write e first = (bs, Ok tt) -> next_header e first = Ok n -> is_ext_number n = false ->
+  len bs = header_len e /\ from_slice first (bs ++ rest) = Ok (e, n, rest).
+Proof. exact exts6_dec_enc. Qed.
+Print Assumptions C08_Exts6_dec_enc_partial.
+
+(* every accepted byte string (including chains on which the decoder stops early because a header
+   kind repeats, n then is an extension number): the struct is valid, write succeeds with the same
+   final number, the written bytes equal the consumed bytes except the reserved bits of fragment
+   (byte 1, bits 1-2 of byte 3) and authentication headers (bytes 2-3) [hdr_eq], and decode again
+   with any remainder gives the same struct *)
+Theorem C08_Exts6_enc_dec : forall first bs e n r, bytes_ok bs -> from_slice first bs = Ok (e, n, r) ->
+  exts6_valid e = true /\
+  exists bs' cons, write e first = (bs', Ok tt) /\ next_header e first = Ok n
+    /\ bs = cons ++ r /\ hdr_eq bs' cons /\ len bs' = header_len e
+    /\ forall t, from_slice first (bs' ++ t) = Ok (e, n, t).
+Proof. exact exts6_enc_dec. Qed.
+Print Assumptions C08_Exts6_enc_dec.
+
+(* the decoder never looks behind the headers it consumes *)
+Theorem C08_Exts6_frame : forall first s t e n r,
+  from_slice first s = Ok (e, n, r) -> from_slice first (s ++ t) = Ok (e, n, r ++ t).
+Proof. exact from_slice_frame. Qed.
+Print Assumptions C08_Exts6_frame.
+
+(* hop-by-hop (8 bytes), fragment with reserved bits set, then UDP: re-encoding clears the reserved bits *)
+Definition ex_bytes : bytes := [44; 0; 1; 2; 3; 4; 5; 6] ++ [17; 170; 0; 15; 0; 0; 0; 1] ++ [9; 9].
+Example C08_Exts6_ex : exists e,
+  from_slice 0 ex_bytes = Ok (e, 17, [9; 9]) /\ exts6_valid e = true
+  /\ write e 0 = ([44; 0; 1; 2; 3; 4; 5; 6] ++ [17; 0; 0; 9; 0; 0; 0; 1], Ok tt)
+  /\ from_slice 0 (fst (write e 0) ++ [7]) = Ok (e, 17, [7]).
+Proof. eexists. repeat split; vm_compute; reflexivity. Qed.
+(* a repeated fragment header stops the decoder on an extension number; still a round trip *)
+Example C08_Exts6_ex_dup : exists e,
+  from_slice 44 ([44; 0; 0; 8; 0; 0; 0; 1] ++ [44; 0; 0; 0; 0; 0; 0; 2]) = Ok (e, 44, [44; 0; 0; 0; 0; 0; 0; 2])
+  /\ write e 44 = ([44; 0; 0; 8; 0; 0; 0; 1], Ok tt).
+Proof. eexists. split; vm_compute; reflexivity. Qed.
+End EXTS6.
